@@ -4,6 +4,9 @@ import (
 	"bytes"
 	"context"
 	"crypto/ecdsa"
+	"crypto/ed25519"
+	"crypto/elliptic"
+	"crypto/rand"
 	"crypto/rsa"
 	"crypto/x509"
 	"encoding/base64"
@@ -16,10 +19,12 @@ import (
 	"regexp"
 	"sort"
 	"strings"
+	"sync"
 	"testing"
 	"time"
 
 	"github.com/lestrrat-go/jwx/v2/jwa"
+	"github.com/lestrrat-go/jwx/v2/jwk"
 	"github.com/lestrrat-go/jwx/v2/jws"
 	"github.com/nuts-foundation/go-did/did"
 	"github.com/nuts-foundation/nuts-node/audit"
@@ -219,7 +224,24 @@ func c03Body(s *simkit.Sim, rc *simkit.RunCtx) {
 	}
 	if kid != "" {
 		pubJWK := map[string]interface{}{"kty": "EC", "crv": "P-256", "x": "f83OJ3D2xF1Bg8vub9tLe1gHMzV76e8Tus9uPHvRVEU", "y": "x_FEzRu9m36HLN_tue659LNpXW6pCyStikYjKIWI5a0"}
+		// a private key of a seeded kind for the jwk header: EC, OKP (Ed25519), RSA
+		var privRaw interface{}
 		privJWK := map[string]interface{}{"kty": "EC", "crv": "P-256", "x": "f83OJ3D2xF1Bg8vub9tLe1gHMzV76e8Tus9uPHvRVEU", "y": "x_FEzRu9m36HLN_tue659LNpXW6pCyStikYjKIWI5a0", "d": "jpsQnnGQmL-YBIffH1136cspYG6-0iY7X1fCE9-E9LI"}
+		privMarker := `"d"`
+		switch s.D.Decide("private-jwk-kind", 4) {
+		case 1:
+			_, edKey, _ := ed25519.GenerateKey(rand.Reader)
+			privRaw = edKey
+		case 2:
+			privRaw = c03RSAKey()
+		case 3:
+			ecKey, _ := ecdsa.GenerateKey(elliptic.P384(), rand.Reader)
+			privRaw = ecKey
+		default:
+			ecKey, _ := ecdsa.GenerateKey(elliptic.P256(), rand.Reader)
+			privRaw = ecKey
+		}
+		privJWK = jwkMap(privRaw)
 		hostile := map[string]interface{}{"x": "y", "typ": "evil", "cty": "a/b"}
 		switch s.D.Decide("jws-headers", 3) {
 		case 1:
@@ -237,11 +259,39 @@ func c03Body(s *simkit.Sim, rc *simkit.RunCtx) {
 			code, out := b.Call("POST", "/internal/crypto/v1/sign_jws", map[string]interface{}{"kid": kid, "headers": map[string]interface{}{"jwk": privJWK}, "payload": base64.StdEncoding.EncodeToString([]byte("hello")), "detached": s.D.Decide("detached", 2) == 1})
 			token := strings.TrimSpace(strings.Trim(string(out), "\"\n"))
 			if code == 200 && strings.Count(token, ".") == 2 {
-				if hdr, err := base64.RawURLEncoding.DecodeString(strings.SplitN(token, ".", 2)[0]); err == nil && bytes.Contains(hdr, []byte(`"d"`)) {
+				if hdr, err := base64.RawURLEncoding.DecodeString(strings.SplitN(token, ".", 2)[0]); err == nil && bytes.Contains(hdr, []byte(privMarker)) {
 					s.Fail("C03.jwk-header", "sign_jws", "the node signed a JWS whose jwk header embeds a private key: %s", hdr)
 				}
 			} else {
 				s.Probes.Inc("private-jwk-header-refused")
+			}
+		})
+		if s.Failed() {
+			return
+		}
+		// the same at Go level (internal callers pass a jwk.Key object in the header map)
+		op("SignJWS-private-jwk-object", func() {
+			keyObj, err := jwk.FromRaw(privRaw)
+			if err != nil {
+				return
+			}
+			ctx := audit.Context(context.Background(), "sim", "Sim", "op")
+			token, err := b.Crypto.SignJWS(ctx, []byte("hello"), map[string]interface{}{"jwk": keyObj}, kid, s.D.Decide("detached-go", 2) == 1)
+			if err == nil && strings.Count(token, ".") == 2 {
+				if hdr, derr := base64.RawURLEncoding.DecodeString(strings.SplitN(token, ".", 2)[0]); derr == nil {
+					var h struct {
+						JWK map[string]interface{} `json:"jwk"`
+					}
+					_ = json.Unmarshal(hdr, &h)
+					for _, member := range []string{"d", "p", "q", "dp", "dq", "qi", "k"} {
+						if _, has := h.JWK[member]; has {
+							s.Fail("C03.jwk-header", "SignJWS", "the key store signed a JWS whose jwk header embeds the private member %q of a %T: %s", member, privRaw, hdr)
+							return
+						}
+					}
+				}
+			} else {
+				s.Probes.Inc("private-jwk-object-refused")
 			}
 		})
 		if s.Failed() {
@@ -296,6 +346,36 @@ func c03Body(s *simkit.Sim, rc *simkit.RunCtx) {
 		if s.Failed() {
 			return
 		}
+	}
+	// key ids nobody created: the key store must not fall back on another key
+	if kid != "" {
+		ctx := audit.Context(context.Background(), "sim", "Sim", "op")
+		for _, k := range []string{"", " ", "%", "_", kid + " ", " " + kid, kid[:len(kid)-1], strings.ToUpper(kid), kid + "%", strings.SplitN(kid, "#", 2)[0], "#" + strings.SplitN(kid+"#", "#", 3)[1]} {
+			if k == kid {
+				continue
+			}
+			op("unknown-kid", func() {
+				if tok, err := b.Crypto.SignJWT(ctx, map[string]interface{}{"a": "b"}, nil, k); err == nil {
+					s.Fail("C03.kid", "unknown-kid:jwt", "SignJWT produced a token for key id %q, which nobody created: %s", k, tok)
+					return
+				}
+				if tok, err := b.Crypto.SignJWS(ctx, []byte("x"), map[string]interface{}{"typ": "x"}, k, false); err == nil {
+					s.Fail("C03.kid", "unknown-kid:jws", "SignJWS produced a signature for key id %q, which nobody created: %s", k, tok)
+					return
+				}
+				if ok, _ := b.Crypto.Exists(ctx, k); ok {
+					s.Fail("C03.kid", "unknown-kid:exists", "the key store says a private key exists for key id %q, which nobody created", k)
+					return
+				}
+				if _, err := b.Crypto.Resolve(ctx, k); err == nil {
+					s.Fail("C03.kid", "unknown-kid:resolve", "the key store resolves a public key for key id %q, which nobody created", k)
+				}
+			})
+			if s.Failed() {
+				return
+			}
+		}
+		s.Probes.Inc("unknown-key-ids-refused")
 	}
 	// key ids that are not linked to any key, path-like, through the API
 	for _, k := range []string{"../escape", "..%2Fescape", kid + "/../x", "did:web:nodeb.sim#../../escape"} {
@@ -489,6 +569,26 @@ func c03Body(s *simkit.Sim, rc *simkit.RunCtx) {
 		}
 	}
 	rc.Nontrivial = sample.Keys > 0 && len(sample.Ops) > 5
+}
+
+var c03RSAOnce sync.Once
+var c03RSA *rsa.PrivateKey
+
+// c03RSAKey is one RSA key per process (generation is slow; its value does not matter).
+func c03RSAKey() *rsa.PrivateKey {
+	c03RSAOnce.Do(func() { c03RSA, _ = rsa.GenerateKey(rand.Reader, 1024) })
+	return c03RSA
+}
+
+func jwkMap(key interface{}) map[string]interface{} {
+	k, err := jwk.FromRaw(key)
+	if err != nil {
+		panic(err)
+	}
+	b, _ := json.Marshal(k)
+	m := map[string]interface{}{}
+	_ = json.Unmarshal(b, &m)
+	return m
 }
 
 func excerpt(data, needle []byte) string {
